@@ -15,7 +15,7 @@ FUNCTIONS = ["ParserData.get_signature/get_chip_desc/get_sig_desc/get_attn_desc/
 CHIP = {"model_ec": {"id": "20da0020", "type": "proc", "desc": "P10 2.0"},
         "attn_types": {"1": "CS", "3": "RE"},
         "signatures": {"ab12": ["EQ_CORE_FIR", {"4": "bit four text", "255": "last bit"}], "00ff": ["NO_BITS", {}]},
-        "registers": {"a1b2c3": ["REG_NAME_THAT_IS_LONGER_THAN_25_CHARS", {"0": "0x20028440", "1": "0x20028480"}],
+        "registers": {"a1b2c3": ["REG_NAME_THAT_IS_LONGER_THAN_25_CHARS", {"0": "0x20028440", "1": "0x20028480", "2": "0x800C5C0010012C3F"}],
                       "000001": ["SHORT", {}]}}
 HARNESSES = [
     {"fn": "h_signature", "cases": ["b%d:%s" % (i, d) for i in range(12) for d in ("nodata", "data")] + ["case:nodata", "case:data"],
@@ -24,14 +24,14 @@ HARNESSES = [
     {"fn": "h_src", "cases": ["w6", "w7", "w8", "ref"], "quick_cases": ["w6", "ref"], "timeout": {"quick": 120, "thorough": 600}},
     {"fn": "h_src_seq", "cases": ["BC-BD", "BD-BC"], "timeout": {"quick": 120, "thorough": 400}},
     {"fn": "h_siglist", "cases": ["count"], "timeout": {"quick": 120, "thorough": 400}},
-    {"fn": "h_regdump", "cases": ["size", "inst", "id", "twochips", "sameid"], "quick_cases": ["size", "inst", "sameid"], "timeout": {"quick": 120, "thorough": 400}},
+    {"fn": "h_regdump", "cases": ["size", "inst", "id", "twochips", "sameid", "zerochip"], "quick_cases": ["size", "inst", "sameid", "zerochip"], "timeout": {"quick": 120, "thorough": 400}},
     {"fn": "h_scratch", "cases": ["regs:v", "regs:k0", "regs:k8", "regs:k15", "sig", "ffdc", "other"], "quick_cases": ["regs:v", "regs:k8", "sig", "ffdc", "other"],
      "timeout": {"quick": 120, "thorough": 400}},
 ]
 BOUNDS = {"signature": "one of the 12 signature bytes symbolic per run (all 256 values), with and without a chip data file; hex "
                        "digit case of all three words symbolic", "src": "SRC words 6, 7, 8 symbolic one at a time (32 bit), the "
-                       "reference-code suffix symbolic", "signature list": "0..2 signatures (count symbolic)",
-          "register dump": "1..2 chips, 1..2 registers; data size symbolic 0..4, register instance and one id byte symbolic"}
+                       "reference-code suffix symbolic", "signature list": "0..2 signatures (count symbolic) followed by 3 or 27 further bytes",
+          "register dump": "1..3 chips, 0..4 registers, a 64-bit register address; data size symbolic 0..4, register instance and one id byte symbolic"}
 ASSUMPTIONS = ["glob / open of the chip data files replaced by an in-memory fixture (E5): one model/EC with partial tables",
                "json.dumps of the result replaced by the token (M7)"]
 OUTSIDE = ["all 2^96 signatures jointly", "chip data files other than the fixture", "data sizes above 4"]
@@ -170,7 +170,8 @@ def h_siglist() -> bool:
         if n == cand:
             cnt = cand
     data = mkbytes(cnt.to_bytes(4, "big"), *[mkbytes(*[[v] for v in s]) for s in sigs[:cnt]])
-    data = mkbytes(data, b"\xEE" * 3)
+    # bytes after the announced signatures (padding, or a fixed-size buffer with stale contents) are not signatures
+    data = mkbytes(data, b"\xEE" * 3 if bool(sym_bool("short_pad")) else bytes(14) + b"\x20\xDA\x00\x20" + bytes(9))
     fj = FakeJson()
     try:
         with env(True), patched(ud, json=fj):
@@ -197,6 +198,8 @@ def regline(model_known, rid, inst, data_bytes, chipdata):
                 addr = 0x20028440
             elif inst == 1:
                 addr = 0x20028480
+            elif inst == 2:
+                addr = 0x800C5C0010012C3F            # an indirect (64-bit) address is shown in full
         elif sym_all([rid[0] == 0x00, rid[1] == 0x00, rid[2] == 0x01]):
             name = "SHORT"
     if name is None:
@@ -242,6 +245,10 @@ def h_regdump() -> bool:
         i2 = sym_int("inst2", 0, 255)
         regs1 = [([0xA1, 0xB2, 0xC3], 0, [0x01]), ([0xA1, 0xB2, 0xC3], i2, [0x02]), ([0x77, 0x88, 0x99], 5, [0x03]), ([0x77, 0x88, 0x99], i2, [0x04])]
     chips = [(model, 0x0007, 0x03, regs1)]
+    if CASE == "zerochip":
+        # a chip without captured registers, followed by another chip
+        x = sym_int("x", 0, 255)
+        chips = [(model, 0x0007, 0x03, []), ([0x12, 0x34, 0x56, x], 0x0102, 0x01, [([0xA1, 0xB2, 0xC3], 0, [x])]), (model, 0x0008, 0x00, regs1)]
     if CASE == "twochips":
         x = sym_int("x", 0, 255)
         chips.append(([0x12, 0x34, 0x56, x], 0x0102, 0x01, [([0xA1, 0xB2, 0xC3], 0, [x])]))
